@@ -1,5 +1,6 @@
 import HdVerif.Model.Json
 import HdVerif.Model.Coding
+import HdVerif.Model.CodingStore
 import HdVerif.Generated.T17m
 import Std.Data.HashMap
 open Lean HdVerif HdVerif.Drv HdVerif.Coding HdVerif.Gen
@@ -68,6 +69,44 @@ def clsToStr : Cls → String
 
 def cellToJson (c : Cell) : Json := Json.mkObj [("cls", Json.str (clsToStr c.cls)), ("ds", dsToJson c.ds)]
 
+
+/-- an injective stand-in for Python's string hash (the dict model only needs equal strings ↦ equal hashes and —
+as for the real hash with overwhelming probability — different strings ↦ different hashes) -/
+def strCode (s : String) : Int := (s.foldl (fun acc c => acc * 1114112 + c.toNat + 1) 0 : Nat)
+
+def objToJson : Obj → Json
+  | .concept d => Json.mkObj [("concept", dsToJson d)]
+  | .code c => Json.mkObj [("code", Json.arr #[optStrToJson c.value, optStrToJson c.scheme, optStrToJson c.meaning, optStrToJson c.version])]
+
+def parseDOp (j : Json) : Except String (DOp Int) := do
+  let op ← getStr j "op"
+  let k ← getObj j "k"
+  match op with
+  | "set" => pure (.set k (← getInt j "v"))
+  | "get" => pure (.get k)
+  | "del" => pure (.del k)
+  | _ => throw "dict op: set / get / del"
+
+def parseHOp (j : Json) : Except String HOp := do
+  let op ← getStr j "op"
+  match op with
+  | "new" => pure (.new (← getStr j "value") (← getStr j "scheme") (← getStr j "meaning") (← optStr (j.getObjValD "version")))
+  | "fromCode" => pure (.fromCode (← getStr j "value") (← getStr j "scheme") (← getStr j "meaning") (← optStr (j.getObjValD "version")))
+  | "fromConcept" => pure (.fromConcept (← getNat j "r"))
+  | "fromDataset" => pure (.fromDataset (← getNat j "r") (← getBool j "copy"))
+  | "deepcopy" => pure (.deepcopy (← getNat j "r"))
+  | "set" => pure (.set (← getNat j "r") (← getStr j "k") (← getStr j "v"))
+  | "del" => pure (.del (← getNat j "r") (← getStr j "k"))
+  | _ => throw "store op unknown"
+
+def optIntToJson : Option Int → Json
+  | none => Json.null
+  | some i => (i : Json)
+
+def optNatToJson : Option Nat → Json
+  | none => Json.null
+  | some i => (i : Json)
+
 def pyHashStub (s : String) : Int := (s.hash.toNat : Int)
 
 def handlers (t : Tables) : List (String × Handler) := [
@@ -103,6 +142,23 @@ def handlers (t : Tables) : List (String × Handler) := [
     pure (exceptToJson (fun (o : Obj) => match o with
       | .concept d => Json.mkObj [("concept", dsToJson d)]
       | .code c => Json.mkObj [("code", Json.arr #[optStrToJson c.value, optStrToJson c.scheme, optStrToJson c.meaning, optStrToJson c.version])]) r)),
+  ("dictHistory", fun j => do
+    -- a history of d[k] = v / d.get(k) / del d[k] on one dict (set: v = 0); answers step by step + the final entries
+    let ops ← (← getArr j "ops").toList.mapM parseDOp
+    let (d, outs) := dictRun strCode (mappingOf t) ([] : PyDict Int) ops
+    pure (okJson (Json.mkObj [
+      ("steps", Json.arr (outs.map (exceptToJson optIntToJson)).toArray),
+      ("entries", Json.arr (d.map (fun e => Json.arr #[objToJson e.key, (e.val : Json)])).toArray)]))),
+  ("storeHistory", fun j => do
+    let cells ← (← getArr j "heap").toList.mapM (fun c => do
+      pure ({ cls := clsOfStr (← getStr c "cls"), ds := ← parseDS (← c.getObjVal? "ds") } : Cell))
+    let ops ← (← getArr j "ops").toList.mapM parseHOp
+    let (h, outs) := runH cells ops
+    pure (okJson (Json.mkObj [
+      ("steps", Json.arr (outs.map (exceptToJson optNatToJson)).toArray),
+      ("heap", Json.arr (h.map cellToJson).toArray)]))),
+  ("fileRT", fun j => do
+    pure (okJson (dsToJson (fileRoundTrip (← parseDS (← j.getObjVal? "ds")))))),
   ("fromDataset", fun j => do
     let cell : Cell := { cls := clsOfStr (← getStr j "cls"), ds := ← parseDS (← j.getObjVal? "ds") }
     let copy ← getBool j "copy"
